@@ -148,6 +148,8 @@ func (w *c09World) stepStr(s c09Step) string {
 		return fmt.Sprintf("v:%d", s.c)
 	case 'b':
 		return fmt.Sprintf("b:%d", s.c)
+	case 'x':
+		return fmt.Sprintf("x:%d", s.c)
 	}
 	return fmt.Sprintf("f:%d:%d:%d", s.c, w.idxOf[[2]int{s.c, s.k}], s.a)
 }
@@ -165,6 +167,7 @@ func (w *c09World) runHistory(steps []c09Step) (string, string) {
 	for _, s := range steps {
 		cl := w.clients[s.c]
 		before := snapCI()
+		beforeAll := w.dump(cache, false)
 		switch s.kind {
 		case 'v':
 			err := att.VerifyRequest(cl.request, cl.blind, cl.pubEnc, w.anons[0])
@@ -174,6 +177,25 @@ func (w *c09World) runHistory(steps []c09Step) (string, string) {
 			} else {
 				outs = append(outs, "reject")
 				bad = "honest request refused by VerifyRequest"
+			}
+		case 'x':
+			// another client's correctly signed request presented with this client's key (or, alternately, a wrong
+			// blind): VerifyRequest must refuse it and must not create state for this client
+			other := w.clients[(s.c+1)%len(w.clients)]
+			var err error
+			if len(outs)%2 == 0 {
+				err = att.VerifyRequest(other.request, other.blind, cl.pubEnc, w.anons[0])
+			} else {
+				err = att.VerifyRequest(cl.request, other.blind, cl.pubEnc, w.anons[0])
+			}
+			if err == nil {
+				outs = append(outs, "verified")
+				bad = "an inauthentic request was verified"
+			} else {
+				outs = append(outs, "reject")
+			}
+			if w.dump(cache, false) != beforeAll {
+				bad = "a rejected VerifyRequest created or changed client state"
 			}
 		case 'b':
 			junk := append([]byte{}, w.blinded[[2]int{s.c, 0}]...)
@@ -308,6 +330,7 @@ func runC09(c *Ctx) {
 		}
 	}
 	alpha = append(alpha, c09Step{kind: 'b', c: 0})
+	alpha = append(alpha, c09Step{kind: 'x', c: 1})
 	var hists [][]c09Step
 	var rec func(pre []c09Step, d int)
 	rec = func(pre []c09Step, d int) {
@@ -373,6 +396,8 @@ func runC09(c *Ctx) {
 				h = append(h, c09Step{kind: 'v', c: r.IntN(4)})
 			case x == 3:
 				h = append(h, c09Step{kind: 'b', c: r.IntN(4)})
+			case x == 4:
+				h = append(h, c09Step{kind: 'x', c: r.IntN(4)})
 			default:
 				h = append(h, c09Step{kind: 'f', c: r.IntN(4), k: r.IntN(4), a: r.IntN(4)})
 			}
